@@ -74,6 +74,11 @@ def generate_index(args:argparse.Namespace):
         if args.force:
             index_dir.wipe_canonical_peptides()
             index_dir.init_metadata()
+            # Unregister the wiped pools on disk right away. Otherwise, if
+            # this run is interrupted, the old metadata.json still maps the
+            # old cleavage parameters to a file name the new pool is written
+            # to, and a later load returns a pool built with other parameters.
+            index_dir.save_metadata()
         else:
             logger.error("Index directory already exists.")
             sys.exit(1)
